@@ -13,6 +13,11 @@ func marshal(p *lang.Process, v any) ([]byte, error) {
 			break
 		}
 
+		if len(t) == 0 {
+			// a table without even a heading row
+			break
+		}
+
 		var i int
 		table := make([]map[string]any, len(t)-1)
 		err := types.Table2Map(t, func(m map[string]any) error {
